@@ -6,6 +6,7 @@ import (
 	"net"
 	"os"
 	"path/filepath"
+	"regexp"
 	"strings"
 
 	"github.com/EdgeCast/vflow/ipfix"
@@ -193,6 +194,19 @@ func installElements(run *mon.Run) func() {
 	dir := filepath.Join(os.Getenv("VERIF_RUN"), "elements")
 	os.MkdirAll(dir, 0o755)
 	content := wire.ElementsFileExtending(shipped, wire.SyntheticElems())
+	// the installed file is the site's information model: it may also give a built-in element another type
+	// (a vendor's 32-bit octetDeltaCount ...). With the file installed THAT type is in force.
+	for id, nt := range retyped {
+		re := regexp.MustCompile(fmt.Sprintf(`(?m)^  %d:\n  - (\S+)\n  - \S+$`, id))
+		if !re.Match(content) {
+			run.HarnessError(fmt.Sprintf("cannot retype element %d in the elements file", id))
+		}
+		// the first match only: the IANA section comes first, the same id may occur again under an enterprise number
+		if loc := re.FindSubmatchIndex(content); loc != nil {
+			repl := fmt.Sprintf("  %d:\n  - %s\n  - %s", id, content[loc[2]:loc[3]], nt)
+			content = append(append(append([]byte{}, content[:loc[0]]...), repl...), content[loc[1]:]...)
+		}
+	}
 	os.WriteFile(filepath.Join(dir, "ipfix.elements"), content, 0o644)
 	orig := ipfix.InfoModel
 	if err := ipfix.LoadExtElements(dir); err != nil {
@@ -200,6 +214,20 @@ func installElements(run *mon.Run) func() {
 		run.Finish()
 	}
 	return func() { ipfix.InfoModel = orig }
+}
+
+// retyped: built-in IANA elements to which the installed elements file gives another abstract type.
+var retyped = map[uint16]string{1: "unsigned32", 4: "unsigned16", 8: "unsigned32", 56: "octetArray", 82: "octetArray", 152: "unsigned64"}
+
+// withRetyped returns elems with the types the installed file declares.
+func withRetyped(elems []wire.Elem) []wire.Elem {
+	out := append([]wire.Elem{}, elems...)
+	for i := range out {
+		if nt, ok := retyped[out[i].ID]; ok && out[i].PEN == 0 {
+			out[i].Type = nt
+		}
+	}
+	return out
 }
 
 func flowSig(proto, kind string, c *wire.FlowCase) string {
@@ -386,7 +414,7 @@ func flowMain(args mon.Args, prop, proto string) {
 			}
 		}
 	}
-	phase(true, all, n-n/2, "B")
+	phase(true, withRetyped(all), n-n/2, "B")
 	restore()
 
 	// canary: a flipped expectation must be reported
@@ -403,7 +431,7 @@ func flowMain(args mon.Args, prop, proto string) {
 		}
 	}
 	run.Set("types_swept", typesSeen)
-	run.SetRule("model → independent encoder (wire/) → real Decode on a fresh cache → field-by-field comparison (id, enterprise number, Go type and value) with the snapshot's type table. Sweep: every element × every legal fixed length (1..size; 9 lengths and the varlen marker for string/octetArray) × boundary contents, complete. Random: exporter histories with 1-3 templates (plain/options, reduced sizes, varlen 1- and 3-octet prefixes, enterprise elements and IANA-space elements that only the installed file defines, once the elements file is installed), 1-4 data sets, 1-40 records, legal padding, in a fifth of the histories a set with a reserved id at a random position; a third of the sweep pairs and a quarter of the histories save the cache and load it back (Dump + GetCache, a collector restart) between two datagrams; distinct = structural descriptor (field types/lengths/options split/record count/padding), non-trivial = at least one data record compared")
+	run.SetRule("model → independent encoder (wire/) → real Decode on a fresh cache → field-by-field comparison (id, enterprise number, Go type and value) with the snapshot's type table. Sweep: every element × every legal fixed length (1..size; 9 lengths and the varlen marker for string/octetArray) × boundary contents, complete. Random: exporter histories with 1-3 templates (plain/options, reduced sizes, varlen 1- and 3-octet prefixes, enterprise elements, IANA-space elements that only the installed file defines and six built-in elements the installed file gives another type, once the elements file is installed), 1-4 data sets, 1-40 records, legal padding, in a fifth of the histories a set with a reserved id at a random position; a third of the sweep pairs and a quarter of the histories save the cache and load it back (Dump + GetCache, a collector restart) between two datagrams; distinct = structural descriptor (field types/lengths/options split/record count/padding), non-trivial = at least one data record compared")
 	run.Assume("well-formedness contract of DESIGN.md Appendix A (element id 0, template withdrawal, RFC 6313 list internals not generated)")
 	run.Assume("fixtures/iana_ipfix_snapshot.tsv is the reference type table (C20 ties it to both in-repo tables)")
 	run.Finish()
